@@ -302,7 +302,11 @@ def count_lines(path):
 
 
 def read_line(path, idx):
-    """1-based line idx of an ndjson file, parsed."""
+    """1-based line idx of an ndjson file, parsed (the last line if the file is shorter)."""
+    n = count_lines(path)
+    if n == 0:
+        return {"note": "empty file"}
+    idx = max(1, min(idx, n))
     with open(path) as f:
         for i, l in enumerate(f, 1):
             if i == idx:
